@@ -23,9 +23,10 @@ sys.path.insert(0, os.path.join(ROOT, "tools"))
 import buildlib  # noqa: E402
 
 mods = []
+claimed = [l.strip() for l in open(os.path.join(ROOT, "theorems", "CLAIMED")) if l.strip() and not l.startswith("#")]
 for f in sorted(glob.glob(os.path.join(ROOT, "theorems", "C*.json"))):
     spec = json.load(open(f))
-    if spec.get("claimed", True):
+    if os.path.basename(f)[:-5] in claimed:
         mods += spec["modules"]
 bad = 0
 rc, out = sh(["lake", "build"] + mods, cwd=LEAN)
